@@ -67,7 +67,7 @@ def gen_inst(rng, big=False):
 
 def gen_cases(ctx):
     rng = ctx.rng
-    for i in range(ctx.scale(400, 8000)):
+    for i in range(ctx.scale(1500, 16000)):
         if i % 8 == 7:
             seq = [gen_inst(rng) for _ in range(rng.randint(2, 4))]
             yield {"kind": "reuse", "instances": seq, "seed": rng.randrange(2**31),
